@@ -103,16 +103,19 @@ def nontrivial(case, reply):
     return reply.startswith("err")
 
 MANIFEST = {
-    "text": "Proof: every unwrap/expect/assert/panic!/unreachable! of asm.rs, ops.rs, ops/expression.rs, ops/macros.rs, ingest.rs and the "
-            "literal parser is an explicit panic outcome of the models; assemble never yields one (other than the model's own fuel "
+    "text": "Proof: every unwrap/expect/assert/panic!/unreachable! of parse/*.rs, asm.rs, ops.rs, ops/expression.rs, ops/macros.rs and ingest.rs "
+            "is an explicit panic outcome of the models; for EVERY source text the parser model (pest interpreter over the regenerated "
+            "grammar + pair-tree walk) reaches none of its 24 sites (C14_parse); assemble never yields one (other than the model's own fuel "
             "marker) for any item list — recursive and mis-applied macros, division by zero, negative and out-of-range operands "
             "included; and it TERMINATES: with fuel above the explicit bound 257 * (opsSize + 2) the fuel marker cannot appear either "
             "(C14_terminates; more fuel never changes an answer, C14_fuel_monotone), because macro nesting is cut off after 255 levels "
             "and bodies are finite; recursion is cut off with an error value after 255 macro levels / 255 nested sources; literal conversion fails "
             "only on strings the grammar cannot produce; ingestion returns bytes or an error value.",
-    "note": "PARTIAL BY NATURE: (a) the parse layer's unwraps depend on the pair-tree shape produced by pest — exercised against the real "
+    "note": "The parse layer is covered by C14_parse (every text; interpreter sound for a token-shape semantics, regenerated grammar closed "
+            "under the shape specification the walk relies on) and C14_preprocess_parse (through any nesting of imports / includes). "
+            "PARTIAL BY NATURE: (a) the pest interpreter and the pair-tree walk are models of pest 2.1.3 and parse/*.rs, tied to the real "
             "parser on valid / near-valid / token-soup / raw inputs and file graphs (outcome classes must equal the model's, never panic "
-            "/ abort / time-out), not proved; (b) machine stack depth is not modelled: D16 (20000-term sum aborts) is a listed finding. "
+            "/ abort / time-out); (b) machine stack depth is not modelled: D16 (20000-term sum aborts) is a listed finding. "
             "Trusted: Lean kernel; the models; child-process isolation and the 10 s limit of the harness runner.",
     "technique": "Lean 4 panic-freedom proofs over models with explicit panic outcomes + differential fuzzing in isolated child processes",
 }
